@@ -2,7 +2,8 @@
 Decided statically: L-rc for every k-mer type (base j <- complement of base K-1-j; involution and the positional law
 follow from the lane map), the canonical-form decision tables (min_rc, min_rc_flip, is_palindrome over ord(self, rc)),
 Lmer::rc for every capacity and length, the 8-bit lemmas for Exts::complement/reverse/rc and the 2-bit complement,
-DnaString::rc's element map, and the DnaStringSlice remap tables (get / get_kmer / slice / rc under the is_rc flag)."""
+DnaString::rc's element map, the DnaStringSlice remap tables (get / get_kmer / slice / rc under the is_rc flag), and the exact
+conversion lemmas of views on a symbolic backing string (to_owned / bytes / renderings / == of reverse-complemented views)."""
 from .. import lemmas, structural, dt, dt_seq
 from . import common
 
@@ -19,3 +20,5 @@ def run(F, rep):
     lemmas.lmer_lemmas(F, rep, which={"rc"})
     dt_seq.slice_view_tables(F, rep, "C12.4")
     lemmas.dnastring_lemmas(F, rep, which={"rc"})
+    # conversions of reverse-complemented views: slice.rc().to_owned() / bytes / renderings equal the substring's reverse complement
+    lemmas.slice_exact_lemmas(F, rep, "C12.6", quick=True)
